@@ -113,6 +113,8 @@ def k_constants(base, chk):
 
 def run(chk):
     prog, base = setup(chk)
+    from .common import state_shape
+    state_shape(chk, prog)
     from .common import platform_independence
     platform_independence(chk, prog)
     from .common import api_surface, ELEMENT_API
